@@ -1,5 +1,159 @@
 import KrroodVerif.Sexp
+import KrroodVerif.Model.Eql
+import KrroodVerif.Model.Match
+import KrroodVerif.Drive.EqlParse
+/-!
+Driver of C11. One case:
+
+`(m (pat P) (dom v…) (objs o…) (sub (c d)…) (schema (cls attr rel coll type|-)…))`
+`P ::= (p cls|- sel (attr A)…)`    `A ::= (lit v) | (coll v ex un sel) | (nested P)`
+
+prints `model=` (desugar + evaluator with today's quirks), `spec=` (`specRows`), `trig=` (finding ids),
+`model_fixed=` (all quirks off). Rows are printed as a sorted, de-duplicated set.
+-/
 namespace KrroodVerif.Drive.C11
-/-- stub: replaced when the model for C11 is built -/
-def run (_ : Sexp) : String := "model=unimplemented\tspec=unimplemented\ttrig="
+open KrroodVerif KrroodVerif.Eql KrroodVerif.Match KrroodVerif.Drive.EqlParse
+
+def parseOptNat : Sexp → Option (Option Nat)
+  | .atom "-" => some none
+  | s => s.asNat?.map some
+
+mutual
+partial def parsePat : Sexp → Option Pat
+  | .list (.atom "p" :: cls :: sel :: as) => do
+    pure (Pat.mk (← parseOptNat cls) (← sel.asBool?) (← parseAssigns as))
+  | _ => none
+partial def parseAssigns : List Sexp → Option Assigns
+  | [] => some .nil
+  | .list [.atom n, v] :: rest => do
+    pure (Assigns.cons n (← parseAVal v) (← parseAssigns rest))
+  | _ => none
+partial def parseAVal : Sexp → Option AVal
+  | .list [.atom "lit", v] => (parseVal v).map AVal.lit
+  | .list [.atom "coll", v, ex, un, sel] => do
+    pure (AVal.coll (← parseVal v) (← ex.asBool?) (← un.asBool?) (← sel.asBool?))
+  | .list [.atom "nested", p] => (parsePat p).map AVal.nested
+  | _ => none
+end
+
+def parseSchemaEntry : Sexp → Option ((Nat × AttrName) × FieldInfo)
+  | .list [c, .atom n, rel, coll, ty] => do
+    pure ((← c.asNat?, n), { rel := (← rel.asBool?), coll := (← coll.asBool?), type := (← parseOptNat ty) })
+  | _ => none
+
+structure Case where
+  w : World
+  s : Schema
+  dom : List Val
+  p : Pat
+
+def parseCase : Sexp → Option Case
+  | .list (.atom "m" :: items) => do
+    let p ← match Sexp.field? items "pat" with
+      | some [x] => parsePat x
+      | _ => none
+    let dom ← (← Sexp.field? items "dom").mapM parseVal
+    let objs ← (← Sexp.field? items "objs").mapM parseObj
+    let sub ← match Sexp.field? items "sub" with
+      | some xs => xs.mapM parseSub
+      | none => some []
+    let s ← (← Sexp.field? items "schema").mapM parseSchemaEntry
+    pure { w := { objs := objs, doms := [], subclass := sub }, s := s, dom := dom, p := p }
+  | _ => none
+
+def showRun (r : Option (List (List Val))) : String :=
+  match r with
+  | none => "exc:NoneWrappedFieldError"
+  | some rows => " ".intercalate (sortStrings (dedupStrings (rows.map showRow)))
+
+/-! ### cross-check against the validated tree-shaped evaluator `Eql.evalQuery`
+
+A match of depth 1 without `exists` and with only the matched element selected builds a TREE-shaped query (every
+attribute node occurs once); on that fragment the evaluator of `Model/Match.lean` must agree with the shared M-EQL
+evaluator (the one validated against the engine by C01/C02). `==` between two object lists is left out: M-EQL compares
+those as sets of identities (its generators have no value-equal elements inside lists). -/
+
+def toEqlTerm : MTerm → Term
+  | .root => .var 0
+  | .attr t n => .attr (toEqlTerm t) n
+  | .flat t => .flatten (toEqlTerm t)
+
+/-- the attribute of the root a depth-1 condition is about -/
+def topAttr : MTerm → Option AttrName
+  | .attr .root n => some n
+  | .flat (.attr .root n) => some n
+  | _ => none
+
+def toEqlConds : List Cond → Nat → Option (List Expr)
+  | [], _ => some []
+  | c :: cs, i => do
+    let e ← match c with
+      | .eq a (.objs _) => (none : Option Expr) <* topAttr a
+      | .eq a l => (topAttr a).map fun _ => Expr.cmp .eq (toEqlTerm a) (.lit (100 + i) l)
+      | .litIn a l => (topAttr a).map fun _ => Expr.contains (toEqlTerm a) (.lit (100 + i) l)
+      | .inLit a l => (topAttr a).map fun _ => Expr.contains (.lit (100 + i) l) (toEqlTerm a)
+      | .hasType a c => (topAttr a).map fun _ => Expr.hasType (toEqlTerm a) c
+      | _ => none
+    let rest ← toEqlConds cs (i + 1)
+    pure (e :: rest)
+
+def condTop : Cond → Option AttrName
+  | .eq a _ | .litIn a _ | .inLit a _ | .hasType a _ => topAttr a
+  | _ => none
+
+def flattenAnd : Cond → List Cond
+  | .and l r => flattenAnd l ++ flattenAnd r
+  | c => [c]
+
+/-- `ok` / `differs` / `n/a` -/
+def eqlCheck (c : Case) : String :=
+  match desugar Quirks.today c.s c.w.subclass c.p with
+  | some q =>
+    if q.sel != [MTerm.root] then "n/a" else
+    let conds := match q.cond with | some e => flattenAnd e | none => []
+    let tops := conds.map condTop
+    if tops.any (·.isNone) || !(tops.eraseDups.length == tops.length) then "n/a" else
+    match toEqlConds conds 0 with
+    | none => "n/a"
+    | some es =>
+      let cond : Option Expr := match es with
+        | [] => none
+        | e :: rest => some (rest.foldl Expr.and e)
+      let d := c.dom.filter fun x => isInstance c.w x q.cls
+      let w' : World := { c.w with doms := [(0, d)] }
+      match Eql.evalQuery w' { sel := [.var 0], cond := cond } with
+      | .error _ => "n/a"
+      | .ok rows =>
+        if showRun (some rows) == showRun (some (Match.evalQuery c.w Quirks.today c.dom q)) then "ok" else "differs"
+  | none => "n/a"
+
+/-- today's quirks with the quirk of each listed finding switched off (that finding repaired) -/
+def quirksWithout (ids : List String) : Quirks :=
+  { existsByValue := !ids.contains "F-C11-1"
+    selIndependent := !ids.contains "F-C11-2"
+    relOnlyIterable := !ids.contains "F-C11-3"
+    declaredOwner := !ids.contains "F-C11-4"
+    lazyFlatten := !ids.contains "F-C11-5"
+    falsyValueIsNoType := !ids.contains "F-C11-6" }
+
+def sublists {α} : List α → List (List α)
+  | [] => [[]]
+  | x :: xs => (sublists xs).flatMap fun l => [l, x :: l]
+
+def run (s : Sexp) : String :=
+  match parseCase s with
+  | none => "error=bad-case"
+  | some c =>
+    let m := Match.run c.w Quirks.today c.s c.dom c.p
+    let mf := Match.run c.w Quirks.fixed c.s c.dom c.p
+    let sp := specRows c.w c.dom c.p
+    let trig := triggers c.w c.s c.p
+    -- one alternative per proper non-empty subset of the triggered findings being repaired
+    let alts := (sublists trig).filter fun l => !l.isEmpty && l.length < trig.length
+    let altFields := alts.map fun l =>
+      s!"\tmodel_without_{"_".intercalate l}={showRun (Match.run c.w (quirksWithout l) c.s c.dom c.p)}"
+    s!"model={showRun m}\tspec={showRun (some sp)}\ttrig={",".intercalate trig}\tmodel_fixed={showRun mf}" ++
+      s!"\twf={c.p.wf c.s c.w.subclass}\tconf={conformsB c.w c.s}\tnsel={c.p.nSel}\teql={eqlCheck c}" ++
+      String.join altFields
+
 end KrroodVerif.Drive.C11
